@@ -245,7 +245,27 @@ func GenBeacon(prop string, seed uint64, tier string) *BeaconScenario {
 		hi := len(honest)
 		if hi >= lo {
 			sc.Reshare = &Reshare{AtRound: uint64(r.Range(4, faultRounds)), NewT: r.Range(lo, hi)}
-			sc.Reshare.AnnounceMs = g0 + int64(sc.Reshare.AtRound-1)*periodMs - int64(r.Range(int(periodMs), int(2*periodMs)))
+			// the new group is announced while the transition is still ahead on every member's own clock (a real
+			// ceremony sets it rounds ahead): clocks that the script steps forward get that much more notice
+			ahead := int64(0)
+			for _, h := range honest {
+				a := int64(0)
+				if h < len(sc.SkewMs) && sc.SkewMs[h] > 0 {
+					a = int64(sc.SkewMs[h])
+				}
+				for _, act := range sc.Script {
+					if act.Kind == "jump" && act.Node == h {
+						a += act.A
+					}
+				}
+				if a > ahead {
+					ahead = a
+				}
+			}
+			sc.Reshare.AnnounceMs = g0 + int64(sc.Reshare.AtRound-1)*periodMs - ahead - int64(r.Range(int(periodMs), int(2*periodMs)))
+			if sc.Reshare.AnnounceMs < 300 {
+				sc.Reshare.AnnounceMs = 300
+			}
 			add(Act{AtMs: sc.Reshare.AnnounceMs, Kind: "reshare"})
 		}
 	}
